@@ -293,7 +293,7 @@ def write_evidence(ev):
         pass
     except FileNotFoundError:
         pass
-    tmp = path + '.tmp'
+    tmp = '%s.%d.tmp' % (path, os.getpid())
     with open(tmp, 'w') as f:
         json.dump(ev, f, indent=1, default=repr, sort_keys=True)
     os.replace(tmp, path)
